@@ -279,10 +279,10 @@ BLK_ASSUME = ['CdnsEncoder / CdnsDecoder replaced by the item-level token model 
               'compiled with -fno-inline so that nested calls stay calls']
 
 
-def blk_obl(kind, name, tiers=('quick', 'thorough'), maxm=3, timeout=900):
-    d = ['BLK_MAXM=%d' % maxm]
-    us = {r'4readERNS_11CdnsDecoderE|10read_arrayE': maxm + 2} if kind == 'r' else ()
-    return Obl('%s_%s%s' % (kind, name, '' if kind == 'w' else '_m%d' % maxm), 'blk.cpp', 'noctor:h_%s_%s' % (kind, name), unwind=24, defines=d, tiers=tiers, timeout=timeout,
+def blk_obl(kind, name, tiers=('quick', 'thorough'), maxm=3, timeout=900, canon=False):
+    d = ['BLK_MAXM=%d' % maxm] + (['BLK_CANON=1'] if canon else [])
+    us = {r'4readERNS_11CdnsDecoderE|10read_arrayE': (20 if canon else maxm + 2)} if kind == 'r' else ()
+    return Obl('%s_%s%s' % (kind, name, '' if kind == 'w' else ('_canon' if canon else '_m%d' % maxm)), 'blk.cpp', 'noctor:h_%s_%s' % (kind, name), unwind=24, defines=d, tiers=tiers, timeout=timeout,
                redirect=BLK_REDIRECT, opt='-O1 -fno-inline', mem_gb=(30 if timeout > 2000 else 16), unwindset=us,
                desc=('write(): one well-formed item, returned size == bytes produced, item == RFC 8618 encoding (all presence subsets, full-width integers)' if kind == 'w' else
                      'read(): reference encoding with members in any order, definite/indefinite, <= 2 unknown members, symbolic cut point: exact value back / CdnsDecoderEnd'),
@@ -300,6 +300,9 @@ def blk_set(kinds, names):
             if k == 'w' and n in BLK_W:
                 out.append(blk_obl('w', n))
             if k == 'r' and n in BLK_R:
+                if n in ('storageparameters', 'collectionparameters'):
+                    # every member present, canonical order, definite/indefinite, symbolic cut
+                    out.append(blk_obl('r', n, tiers=('thorough',), canon=True, timeout=5400))
                 if n in ('storageparameters', 'collectionparameters', 'filepreamble'):
                     out.append(blk_obl('r', n, tiers=('thorough',), maxm={'storageparameters': 6, 'filepreamble': 4}.get(n, 3), timeout=5400))
                 elif n in BLK_BIG:
